@@ -1,4 +1,6 @@
 //! B1: dump the real code's complete output for an enumerated input set, in the order TLC explores it.
+use crate::cgrdec::*;
+use crate::files::*;
 use crate::util::*;
 use kmer::kmer::KmerGenerator;
 use kmer::kmer_minimisers::KmerMinimiserGenerator;
@@ -92,4 +94,137 @@ pub fn posmap(kmax: usize) {
         let atl: Vec<i64> = (0..n).map(|p| at.get(&p).map(|&x| small(x)).unwrap_or(-1)).collect();
         println!("{}", json!({"pos": pos, "at": atl, "count": count}));
     }
+}
+
+/// table oligo <k> <maxlen> <seed> <mode> <dir>: every enumerated input as one FASTA record, through the file API.
+/// mode: raw (batch writer, counts) | normmmap | normbatch. Entry = sparse row; wrong column count => [-1, ncols].
+pub fn oligo(k: usize, maxlen: usize, seed: u64, mode: &str, dir: &str) {
+    let mut rng = Rng::new(seed);
+    let mut seqs: Vec<Vec<u8>> = Vec::new();
+    for_all_strings(5, maxlen, |cls| seqs.push(render(cls, &mut rng, true)));
+    let inp = format!("{}/all_{}_{}.fa", dir, k, mode);
+    let out = format!("{}/all_{}_{}.out", dir, k, mode);
+    write_fasta(&inp, &seqs);
+    let (norm, path) = match mode {
+        "raw" => (false, WPath::Batch),
+        "normmmap" => (true, WPath::Mmap),
+        _ => (true, WPath::Batch),
+    };
+    // a small batch limit so that the batch writer flushes many times
+    run_oligo(&inp, &out, k, norm, path, 4, " ", false, Some(997)).unwrap();
+    let text = std::fs::read_to_string(&out).unwrap_or_default();
+    let kcount = KmerGenerator::kmer_pos_maps(k).2;
+    let mut t = Dense::new();
+    let mut lines = text.split('\n').collect::<Vec<_>>();
+    if lines.last() == Some(&"") {
+        lines.pop();
+    }
+    for i in 0..seqs.len() {
+        match lines.get(i) {
+            Some(l) => {
+                let (row, n) = sparse_row(l, " ", norm);
+                if n == kcount {
+                    t.push(json!(row));
+                } else {
+                    t.push(json!([-1, n]));
+                }
+            }
+            None => t.push(json!([-2, lines.len()])),
+        }
+    }
+    t.flush();
+    let _ = std::fs::remove_file(&inp);
+    let _ = std::fs::remove_file(&out);
+}
+
+/// table cgr <maxlen> <seed> <S>: CgrComputer::vectorise_one on every enumerated input
+pub fn cgr(maxlen: usize, seed: u64, size: u64) {
+    let c = composition::cgr::CgrComputer::new("x.fa".to_string(), "x.out".to_string(), size as usize);
+    let mut rng = Rng::new(seed);
+    let mut t = Dense::new();
+    for_all_strings(5, maxlen, |cls| {
+        let bytes = render(cls, &mut rng, false);
+        match c.verif_vectorise_one(&bytes) {
+            Err(_) => t.push(json!([-1])),
+            Ok(pts) => {
+                let mut flat: Vec<i64> = Vec::new();
+                let mut bad: Option<usize> = None;
+                for (i, (x, y)) in pts.iter().enumerate() {
+                    let b = (i + 2) as u32;
+                    match (numerator(*x, size, b), numerator(*y, size, b)) {
+                        (Some(nx), Some(ny)) => {
+                            flat.push(nx as i64);
+                            flat.push(ny as i64);
+                        }
+                        _ => {
+                            bad = Some(i + 1);
+                            break;
+                        }
+                    }
+                }
+                match bad {
+                    Some(i) => t.push(json!([-2, i])),
+                    None => t.push(json!(flat)),
+                }
+            }
+        }
+    });
+    t.flush();
+}
+
+/// table ocgr <k> <maxlen> <seed> <mode> <dir>: every enumerated input as one FASTA record through OligoCgrComputer::vectorise();
+/// mode raw|norm. Entry = sparse frequency row; [-3, i] if row i's coordinates differ bitwise from row 0's.
+pub fn ocgr(k: usize, maxlen: usize, seed: u64, mode: &str, dir: &str) {
+    let mut rng = Rng::new(seed);
+    let mut seqs: Vec<Vec<u8>> = Vec::new();
+    for_all_strings(5, maxlen, |cls| seqs.push(render(cls, &mut rng, true)));
+    let inp = format!("{}/allo_{}_{}.fa", dir, k, mode);
+    let out = format!("{}/allo_{}_{}.out", dir, k, mode);
+    write_fasta(&inp, &seqs);
+    let norm = mode == "norm";
+    let mut c = composition::oligocgr::OligoCgrComputer::new(inp.clone(), out.clone(), k, 16);
+    c.set_threads(4);
+    c.set_norm(norm);
+    c.verif_set_max_memory(1009);
+    c.vectorise().unwrap();
+    let lines = lines_of(&out);
+    let kcount = KmerGenerator::kmer_pos_maps(k).2;
+    let mut t = Dense::new();
+    let mut first: Option<Vec<(String, String)>> = None;
+    for i in 0..seqs.len() {
+        let Some(l) = lines.get(i) else {
+            t.push(json!([-2, lines.len()]));
+            continue;
+        };
+        let mut xy: Vec<(String, String)> = Vec::new();
+        let mut toks: Vec<String> = Vec::new();
+        let mut ok = true;
+        for tok in l.split(' ') {
+            let inner = tok.trim_start_matches('(').trim_end_matches(')');
+            let parts: Vec<&str> = inner.split(',').collect();
+            if parts.len() != 3 {
+                ok = false;
+                break;
+            }
+            xy.push((parts[0].to_string(), parts[1].to_string()));
+            let f: f64 = parts[2].parse().unwrap_or(-1.0);
+            toks.push(if norm { format!("{:.6}", f) } else { format!("{}", f) });
+        }
+        if !ok || xy.len() != kcount {
+            t.push(json!([-1, xy.len()]));
+            continue;
+        }
+        if first.is_none() {
+            first = Some(xy.clone());
+        }
+        if first.as_ref() != Some(&xy) {
+            t.push(json!([-3, i]));
+            continue;
+        }
+        let (row, _) = sparse_row(&toks.join(" "), " ", norm);
+        t.push(json!(row));
+    }
+    t.flush();
+    let _ = std::fs::remove_file(&inp);
+    let _ = std::fs::remove_file(&out);
 }
